@@ -1,4 +1,5 @@
 import CheetahModel.Proofs.Tables
+import CheetahModel.Proofs.SerialiseProofs
 /-!
 # C14 — saving to LatticeJSON and loading back reproduces the lattice  (table part)
 
@@ -21,5 +22,15 @@ theorem features_accepted : classes.all (fun c => (c.features.filter (· != "nam
 theorem table_nonvacuous :
     (["Quadrupole", "Screen", "Undulator", "SpaceChargeKick", "Dipole", "RBend", "Cavity", "Segment"].all
       fun n => classes.any (·.name == n)) = true := by decide
+
+/-- `parse_segment (convert_segment l) = l` for every uniquely named segment tree: any nesting depth, sub-segments
+in any position (first, middle, last), element order, names, classes and parameter dictionaries preserved
+(`NLat.conv` / `NLat.parse` model `latticejson.convert_segment` / `parse_segment`) -/
+theorem roundtrip (l : NLat) (h : (NLat.names l).Nodup) :
+    NLat.parse (NLat.conv l NLat.Dict.empty) (NLat.depth l) l.name = some l := NLat.roundtrip l h
+
+/-- non-vacuity: a sub-segment in first position (the case the original writer crashed on) -/
+example : (NLat.names (.seg "root" [.seg "sub" [.leaf "q1" ⟨"Quadrupole", [("k1", "1.0")]⟩], .leaf "d1" ⟨"Drift", []⟩])).Nodup := by
+  decide
 
 end C14
